@@ -50,8 +50,46 @@ def run(R):
         o = dict(reverse=0, N=0, t=0, f=int(rng.random() < 0.5), l=int(rng.random() < 0.2), F=rng.choice([0, 2, 3]), D=b"SYM",
                  nl=rng.choice(["native", "keep"]), rf="default", verbose=int(rng.random() < 0.5))
         c = (a, hs, o, rng.choice(["unified", "context", "normal"]), {"a": a, "b": b})
+        v = rng.random()
+        if v < 0.15 and a and b and all(t != "N" for _, t in a + b) and not any(h["ns"] == 0 and h["nc"] == 0 for h in hs):   # (mirror image of D2 excluded)
+            # applied with -R to the new file: the roles of the two files are exchanged ('+' lines now come before '-' lines)
+            c = (b, hs, dict(o, reverse=1), c[3], {"a": b, "b": a, "variant": "reverse"})
+        elif v < 0.3 and a:
+            # -l: the file differs from the patch's copy of it in white space only - the ORIGINAL to get back is the file's own text
+            pert = lambda c_: c_.replace(b" ", b"  ").replace(b"\t", b" ") + rng.choice([b"", b" ", b"\t"])
+            a2 = [(pert(c_) if rng.random() < 0.6 and not c_.endswith(b"\r") else c_, t) for c_, t in a]
+            if a2 != a:
+                b2, pos = [], 0
+                for h in hs:
+                    st = (h["os"] - 1) if h["oc"] else h["os"]
+                    b2 += a2[pos:st]; pos = st
+                    for op, l in h["lines"]:
+                        if op == gen.SP: b2.append(a2[pos]); pos += 1
+                        elif op == gen.MINUS: pos += 1
+                        else: b2.append(l)
+                b2 += a2[pos:]
+                c = (a2, hs, dict(o, l=1, F=0), c[3], {"a": a2, "b": b2, "variant": "whitespace", "may_reject": True})
+        elif v < 0.45 and c[3] == "unified":
+            # the same script with the '-' and '+' lines of every change interleaved at random (a valid unified hunk no diff tool writes)
+            hs2 = []
+            for h in hs:
+                out, run = [], []
+                def flush():
+                    m = [l for l in run if l[0] == gen.MINUS]; p_ = [l for l in run if l[0] == gen.PLUS]
+                    while m or p_:
+                        if m and (not p_ or rng.random() < 0.5): out.append(m.pop(0))
+                        else: out.append(p_.pop(0))
+                    run.clear()
+                for l in h["lines"]:
+                    if l[0] == gen.SP: flush(); out.append(l)
+                    else: run.append(l)
+                flush()
+                hs2.append(dict(h, lines=out))
+            if hs2 != hs:
+                c = (a, hs2, o, "unified", {"a": a, "b": b, "variant": "interleaved"})
         q = cases.enc_apply(c)
         reqs.append(q); meta[q] = c
+        dist["variant " + c[4].get("variant", "plain")] = dist.get("variant " + c[4].get("variant", "plain"), 0) + 1
         k = ("create-from-empty" if not a else "delete-everything" if not b else
              "nonl" if (a[-1][1] == "N" or b[-1][1] == "N") else
              "first-line" if hs[0]["os"] <= 1 else "last-line" if hs[-1]["os"] + hs[-1]["oc"] - 1 >= len(a) else "other")
@@ -60,12 +98,15 @@ def run(R):
     qs, ri, rm = R.tie("T3-apply-define", reqs)
     term = lambda ls: [c + (b"\r" if t == "C" else b"") for c, t in ls]   # up to the final newline
     for q, x in zip(qs, ri):
-        a, hs, o, fmt, mt = meta[q]
-        b = mt["b"]
+        _, hs, o, fmt, mt = meta[q]
+        a, b = mt["a"], mt["b"]
         d = cases.parse_apply_resp(x)
         if d is None:
             R.oracle_fail(f"-D run threw ({x})", {"request": q, "observed": x}); continue
         if d["failed"] != "0":
+            if mt.get("may_reject"):
+                dist["whitespace variant: hunk not matched under -l (skipped)"] = dist.get("whitespace variant: hunk not matched under -l (skipped)", 0) + 1
+                continue
             R.oracle_fail("-D run rejected a hunk of a valid diff", {"request": q, "observed": x}); continue
         out = bytes.fromhex(d["out"][1:])
         mode = o["nl"]
@@ -82,5 +123,7 @@ def run(R):
 
 RULE = ("generated file pairs free of '#' lines (incl. empty original, empty result, changes at first/last line, missing final newline), diffs by the "
         "independent emitter with context 0..3, applied with -D SYM; oracle: an independent Python preprocessor over the output bytes yields the new "
-        "file with SYM defined and the original without (exact bytes when every line is terminated, else up to the added final newline). All cases non-trivial.")
+        "file with SYM defined and the original without (exact bytes when every line is terminated, else up to the added final newline). Variants: the diff applied "
+        "with -R to the new file; -l with a target that differs from the patch's copy in white space (the original to get back is the target's own text); "
+        "unified hunks whose '-' and '+' lines are interleaved at random. All cases non-trivial.")
 ASSUME = ["files contain no lines starting with '#'", "Unix: native = lf"]
